@@ -19,6 +19,7 @@ RULE = ("clique covers from (a) random clique hypergraphs, (b) real covers produ
         "graphs, (c) adversarial size sets {2,4},{2,5},{3,5,6},{4},{2,3,4,5,6,7},{2,7},{3,6}; (d) hub covers: one vertex in 250..400 (rarely > 65536) cliques of one size; ids contiguous from 0 or "
         "from 1; overlapping cliques; cliques as lists or tuples; non-trivial = >=2 sizes present and >=1 absent size "
         "below the maximum; distinct = SHA-1 of the concrete cover")
+RULE += ("; rounds k-l added: " + 'twin-column covers: every vertex in exactly r cliques of each of two or three sizes (prism-like; r random partitions per size)')
 ASSUMPTIONS = ["vertex ids contiguous from 0 or 1 and every vertex occurs in the cover (as the property stipulates)",
                "probabilities compared at 1e-12"]
 HEADLINE = ["covers", "src_random", "src_eecc", "src_mpcc", "src_adversarial", "src_hub", "src_regular", "one_based", "absent_sizes_ge2", "size_ge9", "vertices_recounted", "pipeline_runs", "pipeline_motifs", "covers_written_into_the_same_list_object"]
